@@ -430,3 +430,72 @@ def run_raisefail(prog, ctx=None):
             res.ob("%s:raise(%s)" % (f.qn, arg), bad is None, f, (bad.get("l") if bad else c.get("l")) or f.line,
                    "" if bad is None else "after mpt_refcount_raise(%s) succeeded `%s` reports failure without mpt_refcount_lower(%s): the count stays one too high and the object is never released" % (arg, norm(show(bad, f)), arg))
     return res
+
+
+def run_clonefree(prog, ctx=None):
+    """CLONEFREE: an object that received a shared buffer (`mpt_array_clone(&X->member, src)`, src not null) is not handed to
+    free() before that reference was given back: on every path from the clone to `free(X)` a release runs (a clone of null into
+    the same member, or a call whose name says unref / fini / clear that is handed X or a member of X)."""
+    res = Result("CLONEFREE")
+    n = 0
+    for f in sorted(prog.functions.values(), key=lambda f: (f.file, f.line, f.qn)):
+        if f.nocfg or f.file.startswith("examples/"):
+            continue
+        clones, frees, rel_blocks = [], [], {}
+
+        def root(e):
+            e = strip(e, all_casts=True)
+            while True:
+                if e.get("k") == "un" and e.get("op") == "&":
+                    e = strip(e["e"], lvalue_to_rvalue=False)
+                elif e.get("k") == "mem":
+                    e = strip(e["b"], all_casts=True)
+                elif e.get("k") == "cast":
+                    e = strip(e["e"], all_casts=True)
+                else:
+                    break
+            return e["d"].get("id") if e.get("k") == "ref" and "id" in e.get("d", {}) else None
+        for b, i, e in f.elements():
+            if e.get("k") != "call":
+                continue
+            nm = callee_name(e) or ""
+            ce = strip(e["callee"], all_casts=True) if e.get("callee") is not None else {}
+            slot = ce.get("f") if ce.get("k") == "mem" else ""
+            args = e.get("args", [])
+            if nm == "mpt_array_clone" and len(args) == 2:
+                r = root(args[0])
+                a0 = strip(args[0], all_casts=True)
+                if r is not None and a0.get("k") == "un" and a0.get("op") == "&" and strip(a0["e"], lvalue_to_rvalue=False).get("k") == "mem":
+                    if cval(args[1]) == 0:
+                        rel_blocks.setdefault(r, set()).add(b.id)
+                    else:
+                        clones.append((b, i, e, r))
+                continue
+            if nm == "free" and args:
+                r = root(args[0])
+                if r is not None and strip(args[0], all_casts=True).get("k") == "ref":
+                    frees.append((b, i, e, r))
+                continue
+            low = (nm + " " + (slot or "")).lower()
+            if any(w in low for w in ("unref", "fini", "clear", "close", "destroy")):
+                for a in args:
+                    r = root(a)
+                    if r is not None:
+                        rel_blocks.setdefault(r, set()).add(b.id)
+        for cb, ci, ce_, r in clones:
+            for fb, fi, fe, r2 in frees:
+                if r2 != r:
+                    continue
+                avoid = rel_blocks.get(r, set())
+                reach = (fb.id == cb.id and fi > ci) or (cb.id not in avoid and fb.id in f.reachable_from(cb.id, avoid=avoid) and fb.id not in avoid)
+                n += 1
+                ok = not reach
+                res.ob("%s:%s" % (f.qn, norm(show(fe, f))[:40]), ok, f, fe.get("l", f.line),
+                       "" if ok else "%s: `%s` is reachable after `%s` took a reference on the source's buffer, with no release in between: the buffer keeps a count nobody gives back" % (
+                           f.qn, norm(show(fe, f))[:30], norm(show(ce_, f))[:50]))
+        for cb, ci, ce_, r in clones:
+            n += 1
+            res.ob("%s:%s:site" % (f.qn, norm(show(ce_, f))[:40]), True, f, ce_.get("l", f.line))
+    if n < 3:
+        raise Broken("CLONEFREE: only %d clone-into-member sites" % n)
+    return res
